@@ -17,22 +17,6 @@ EXTENDS PointSet, TLC, Json
 
 CONSTANTS Stride, Offset
 
-\* ---- segments and vertices of a geometry (sets)
-RingSegs(r) == {<<r[i], r[i+1]>> : i \in Edges(r)}
-PathSegs(cs) == IF Len(cs) = 1 THEN {<<cs[1], cs[1]>>} ELSE RingSegs(cs)
-PolySegs(ext, holes) == RingSegs(ext) \cup UNION {RingSegs(holes[i]) : i \in DOMAIN holes}
-RECURSIVE Segs(_)
-Segs(g) ==
-    CASE g.t = "Point" -> {<<g.c, g.c>>}
-      [] g.t = "MultiPoint" -> {<<g.cs[i], g.cs[i]>> : i \in DOMAIN g.cs}
-      [] g.t = "Line" -> {<<g.a, g.b>>}
-      [] g.t = "LineString" -> PathSegs(g.cs)
-      [] g.t = "MultiLineString" -> UNION {PathSegs(g.ls[i]) : i \in DOMAIN g.ls}
-      [] g.t = "Polygon" -> PolySegs(g.ext, g.holes)
-      [] g.t = "MultiPolygon" -> UNION {PolySegs(g.ps[i].ext, g.ps[i].holes) : i \in DOMAIN g.ps}
-      [] g.t = "Rect" -> RingSegs(RectRing(g.a, g.b))
-      [] g.t = "Triangle" -> RingSegs(TriRing(g.a, g.b, g.c))
-      [] g.t = "GeometryCollection" -> UNION {Segs(g.gs[i]) : i \in DOMAIN g.gs}
 Verts(g) == {s[1] : s \in Segs(g)} \cup {s[2] : s \in Segs(g)}
 
 \* members of the pool do not overlap themselves, so Pos of a collection is well defined
